@@ -11,7 +11,8 @@ out = {}
 for i in range(1, 21):
     pid = f"C{i:02d}"
     ctx = run_property(pid, "quick", m)
-    decided = sum(1 for o in ctx.obs if o.status != "unknown")
+    ck = getattr(ctx, "closure_keys", set())
+    decided = sum(1 for o in ctx.obs if o.status != "unknown" and o.key not in ck)  # the property's own obligations only
     out[pid] = {"min_decided": int(decided * 0.7), "decided_at_commit": decided, "obligations_at_commit": len(ctx.obs),
                 "confirmed": sorted([list(o.key) for o in ctx.obs if o.status == "discharged" and o.key not in getattr(ctx, "closure_keys", set())])}
 json.dump(out, open(os.path.join(os.path.dirname(os.path.dirname(os.path.abspath(__file__))), "floors.json"), "w"), indent=1)
